@@ -46,6 +46,7 @@ type vstore struct {
 	filer.FilerStore
 	known  map[string]bool
 	prefix string // "" for the default store, "/b" for the path-specific store mounted at /b/ (it sees translated paths)
+	down   bool   // the store refuses every mutating call (set for one HTTP request of the C20 family, see http.go)
 }
 
 type bomb struct{}
@@ -61,10 +62,16 @@ func (s *vstore) note(e *filer.Entry) {
 }
 func (s *vstore) InsertEntry(ctx context.Context, e *filer.Entry) error {
 	s.note(e)
+	if s.down {
+		return errDown
+	}
 	return s.FilerStore.InsertEntry(ctx, e)
 }
 func (s *vstore) UpdateEntry(ctx context.Context, e *filer.Entry) error {
 	s.note(e)
+	if s.down {
+		return errDown
+	}
 	return s.FilerStore.UpdateEntry(ctx, e)
 }
 
@@ -134,6 +141,12 @@ func unfid(s string) string {
 	if err != nil {
 		return "x" + s
 	}
+	if k > httpBase { // a chunk uploaded by an HTTP request of the C20 family: its per-case canonical number
+		if n, ok := hnames[uint64(k)]; ok {
+			return strconv.Itoa(n)
+		}
+		return "x" + s
+	}
 	return strconv.Itoa(int(k - 1))
 }
 func hlKey(h int) []byte {
@@ -170,7 +183,11 @@ func parseChunks(tok string) []*filer_pb.FileChunk {
 	var cs []*filer_pb.FileChunk
 	for i, x := range strings.Split(tok, ".") {
 		n, _ := strconv.Atoi(x)
-		cs = append(cs, &filer_pb.FileChunk{FileId: fid(n), Offset: int64(i) * 10, Size: 10, Mtime: 1})
+		id := fid(n)
+		if real, ok := hfids[n]; ok { // a chunk an HTTP request of this case uploaded: the file id the master handed out
+			id = real
+		}
+		cs = append(cs, &filer_pb.FileChunk{FileId: id, Offset: int64(i) * 10, Size: 10, Mtime: 1})
 	}
 	return cs
 }
@@ -189,7 +206,11 @@ func entryTok(label string, e *filer.Entry) string {
 	if e.IsDirectory() {
 		k = "d"
 	}
-	return fmt.Sprintf("%s:%s:%d:%s:%s:%d", label, k, e.Uid, chunksTok(e.Chunks), hlTok(e.HardLinkId), e.HardLinkCounter)
+	tag := e.Uid
+	if len(e.Content) > 0 { // inline content (only the HTTP write handlers of the C20 family make it)
+		tag += inlineTag
+	}
+	return fmt.Sprintf("%s:%s:%d:%s:%s:%d", label, k, tag, chunksTok(e.Chunks), hlTok(e.HardLinkId), e.HardLinkCounter)
 }
 func mkEntry(path, kind string, tag int, chunks string, hl int, cnt int) *filer.Entry {
 	mode := os.FileMode(0644)
@@ -322,8 +343,19 @@ func exec(w []string) string {
 	switch op {
 	case "reset":
 		resetStore()
+		resetHTTP()
 		tr.Op("reset", nil, nil)
 		return "ok"
+	case "hput", "happend": // path uid inlineLimit chunkSize bodyLen storeDown : the HTTP write handlers (http.go)
+		r, u := execHTTP(op, arg)
+		outs := []string{r, "q=" + idsTok(emitQ), "d=" + idsTok(emitD), u}
+		if r == "diverge" || r == "panic" {
+			tr.Op(op, a, outs)
+			resetStore()
+			return r
+		}
+		tr.Op(op, a, append(outs, dump()...))
+		return r
 	case "create": // path kind tag chunks hl cnt oexcl : Filer.CreateEntry with an arbitrary client entry
 		res = run(func() string {
 			return errTok(fl.CreateEntry(ctx, mkEntry(arg(0), arg(1), atoi(arg(2)), arg(3), atoi(arg(4)), atoi(arg(5))), arg(6) == "1", false, nil))
@@ -755,25 +787,5 @@ func main() {
 		return
 	}
 	g := &gen{r: hx.NewRng(a.Seed)}
-	part := int(a.Seed % 4)
-	// bounded-exhaustive: every sequence of 1 and 2 alphabet ops; length 3 in the thorough tier (a quarter per seed)
-	g.exhaustive(1, 0, 1)
-	g.exhaustive(2, 0, 1)
-	if a.Thorough() {
-		g.exhaustive(3, part, 4)
-	}
-	// sampled sequences of 3 and 4 alphabet ops
-	for i := 0; i < a.N(1500); i++ {
-		n := 3 + g.r.Intn(2)
-		idx := make([]int, n)
-		for j := range idx {
-			idx[j] = g.r.Intn(len(alphabet))
-		}
-		g.runSeq(idx)
-	}
-	g.wideCase()
-	// long random histories
-	for i := 0; i < a.N(12); i++ {
-		g.randomCase(300)
-	}
+	family(g, a)
 }
